@@ -138,7 +138,7 @@ Hypothesis Hpnoeq : params_noeq ti = true.
 Hypothesis Harr : arrays_sized ti = true.
 Hypothesis Hwf : ints_wf ti = true.
 Hypothesis Hinl : inline_next_exact fs = true.
-Hypothesis Hhd : headed ti = true.
+Hypothesis Hhd : prefix t = None -> headed ti = true.
 Hypothesis Hppo : prefix_plain_ok ti = true.
 Hypothesis Hcoh : cb_coherent cb ti.
 Hypothesis Hparse : parse s = POk t.
@@ -377,7 +377,7 @@ Lemma first_ok : prefix t = None ->
 Proof.
   intros Et. pose proof (parse_info s t Hparse) as Hpi. rewrite Et in Hpi. destruct Hpi as [Hfr Hs].
   assert (Hfirst : exists f1 r, fs = f1 :: r /\ f_omit f1 = false /\ f_group f1 = false).
-  { unfold headed in Hhd. unfold prefix_fact in Hpf. rewrite Et in Hpf. fold fs in Hhd.
+  { specialize (Hhd Et). unfold headed in Hhd. unfold prefix_fact in Hpf. rewrite Et in Hpf. fold fs in Hhd.
     destruct (ti_prefix ti) as [p|].
     - destruct Hpf as [Hom _]. rewrite Hom in Hhd. cbn [negb orb] in Hhd.
       destruct fs as [|f1 r]; [discriminate|]. apply andb_true_iff in Hhd. destruct Hhd as [A B].
@@ -472,6 +472,30 @@ End Main.
 (* ================================================================== *)
 (* the theorem                                                         *)
 (* ================================================================== *)
+(* general form: [headed] is only needed for strings without a prefix *)
+Theorem C20_converse_gen : forall cb ti s m,
+  unambiguous ti = true -> paths_ok ti = true -> ints_unsized ti = true ->
+  params_noeq ti = true -> arrays_sized ti = true -> ints_wf ti = true ->
+  inline_next_exact (ti_fields ti) = true -> prefix_plain_ok ti = true ->
+  cb_coherent cb ti ->
+  (headed ti = true \/ exists t p, parse s = POk t /\ prefix t = Some p) ->
+  unmarshal cb ti s = Ok m ->
+  exists s', marshal cb ti (sval_of m) = Ok s' /\ respell s s'.
+Proof.
+  intros cb ti s m Hun Hpaths Hints Hpe Harr Hwf Hinl Hppo Hcoh Hhd Hu.
+  destruct (unmarshal_analysis cb ti s m Hun Hpe Hu)
+    as (t & sts & D & out0 & Hparse & Ests & Hst & HD & HPerm & Hm & Hpf & Hhead).
+  unfold unambiguous in Hun. rewrite !andb_true_iff in Hun.
+  destruct Hun as ((((Hupre & Hne) & Hshapes) & Hgso) & Hnodup).
+  subst m.
+  apply (main_section cb ti s t sts D out0); auto.
+  - intros p Ep. rewrite Ep in Hupre. rewrite !andb_true_iff in Hupre. destruct Hupre as ((A & B) & C).
+    apply negb_true_iff in B.
+    destruct (fi_embptr p); [|discriminate]. destruct (o_param (fi_opts p)); [|discriminate]. auto.
+  - intros Et. destruct Hhd as [H|(t0 & p & Hp0 & Hp1)]; [exact H|].
+    rewrite Hparse in Hp0. inversion Hp0; subst t0. congruence.
+Qed.
+
 Theorem C20_converse : forall cb ti s m,
   unambiguous ti = true -> paths_ok ti = true -> ints_unsized ti = true ->
   params_noeq ti = true -> arrays_sized ti = true -> ints_wf ti = true ->
@@ -479,18 +503,7 @@ Theorem C20_converse : forall cb ti s m,
   cb_coherent cb ti ->
   unmarshal cb ti s = Ok m ->
   exists s', marshal cb ti (sval_of m) = Ok s' /\ respell s s'.
-Proof.
-  intros cb ti s m Hun Hpaths Hints Hpe Harr Hwf Hinl Hhd Hppo Hcoh Hu.
-  destruct (unmarshal_analysis cb ti s m Hun Hpe Hu)
-    as (t & sts & D & out0 & Hparse & Ests & Hst & HD & HPerm & Hm & Hpf & Hhead).
-  unfold unambiguous in Hun. rewrite !andb_true_iff in Hun.
-  destruct Hun as ((((Hupre & Hne) & Hshapes) & Hgso) & Hnodup).
-  subst m.
-  apply (main_section cb ti s t sts D out0); auto.
-  intros p Ep. rewrite Ep in Hupre. rewrite !andb_true_iff in Hupre. destruct Hupre as ((A & B) & C).
-  apply negb_true_iff in B.
-  destruct (fi_embptr p); [|discriminate]. destruct (o_param (fi_opts p)); [|discriminate]. auto.
-Qed.
+Proof. intros. eapply C20_converse_gen; eauto. Qed.
 
 (* the statement of C20Test.v, with the side conditions it needs *)
 Corollary C20_statement_conditional :
@@ -504,7 +517,9 @@ Corollary C20_statement_conditional :
 Proof. intros. eapply C20_converse; eauto. Qed.
 
 Check C20_converse.
+Check C20_converse_gen.
 Print Assumptions C20_converse.
+Print Assumptions C20_converse_gen.
 Print Assumptions C20_statement_conditional.
 Print Assumptions unmarshal_analysis.
 Print Assumptions field_back.
